@@ -495,6 +495,10 @@ def record_roundtrip(smiles_list, table, strict=True):
         for smi in smiles_list:
             kind, sel, why = call_encoder(smi, strict)
             rec = {"smi": smi, "strict": bool(strict), "kind": kind, "why": why, "sel": "", "dec": "", "reenc": ""}
+            again = call_encoder(smi, strict)
+            if again != (kind, sel, why):        # the same call repeated in the same state (purity)
+                rec["kind"] = "NotRepeatable(%s then %s)" % (kind, again[0])
+                kind = rec["kind"]
             if kind == "ok":
                 rec["sel"] = sel
                 k2, dec = call_decoder(sel)
